@@ -89,7 +89,9 @@ def gen_history(rng, names, stable, hp, maxops=12):
         elif r < 0.45:
             h["ops"].append([rng.choice(["subtract", "minus"]), raw(rng.randint(1, 2)), unit(None)])
         elif r < 0.6:
-            h["ops"].append(["mul", gen_amount(rng, hp, allow_bad=False)])
+            ident = rng.random() < 0.2       # the identity scalar in its different types: the result must still be a new inventory
+            h["ops"].append(["mul", rng.choice([{"i": 1}, {"q": [1, 1]}] if hp else [{"i": 1}, {"f": float(1).hex()}, {"np": float(1).hex()}]) if ident
+                             else gen_amount(rng, hp, allow_bad=False)])
         elif r < 0.7:
             a = gen_amount(rng, hp, allow_bad=False)
             if a.get("i") == 0 or a.get("q", [1])[0] == 0 or a.get("f") == float(0).hex():
@@ -263,6 +265,23 @@ def predicate(h, rec):
                 ok = abs(after - want) <= abs(want) / 10**12
         if not ok:
             bad.append(f"{what}: {dupname} was supplied twice (two spellings) and accepted, but the two amounts are not both accounted for")
+    for st in rec.get("alias", []):
+        bad.append(f"step {st} {h['ops'][st - 1][0]}: an operand of the operator was changed by later operations on its result (the operator did not return a new inventory)")
+    # the nuclides after add / subtract / + / - are the union of both sides (an amount of zero is still an entry); * and / keep them
+    for i in range(1, len(obs)):
+        op = h["ops"][i - 1]
+        if obs[i].get("exc") is not None:
+            continue
+        prev = [c[0] for c in obs[i - 1]["contents"]]
+        now = [c[0] for c in obs[i]["contents"]]
+        if op[0] in ("add", "subtract", "plus", "minus"):
+            cn = [k.get("c") for k, _ in op[1]]
+            if None in cn:
+                continue
+            if set(now) != set(prev) | set(cn):
+                bad.append(f"step {i} {op[0]}: nuclides {now} are not the union of {prev} and {sorted(set(cn))}")
+        elif op[0] in ("mul", "div") and now != prev:
+            bad.append(f"step {i} {op[0]}: scaling changed the nuclides")
     for i, ob in enumerate(obs):
         where = "constructor" if i == 0 else f"step {i} {h['ops'][i - 1][0]}"
         if ob["cls"] != h["cls"]:
